@@ -1,5 +1,6 @@
 import PaletteModel.Proto
 import PaletteModel.Route
+import PaletteModel.RouteEval
 
 namespace Route
 open Proto
@@ -21,6 +22,10 @@ def handle (cfg inp outp : List String) : Verdict :=
       -- appended to `outp` after a "|" token by the caller (see Driver.lean)
       let (direct, composed) := (outp.takeWhile (· != "|"), (outp.dropWhile (· != "|")).drop 1)
       if path == "none" then .agree ["no-route"] else
+      -- the whole-route interpreter the C01_Whole theorems are about (`RouteEval.runPath`: `Conv.edge?` composed along the chain)
+      -- must be able to run this chain under the harness configuration
+      if !(RouteEval.executable ((routeOf ia ib).getD [])) then
+        .disagree s!"route {path} is not executable by the model's route interpreter (a hop without an edge in Conv.edge?)" else
       if direct == composed then .agree [if (routeOf ia ib) == some (treePath ia ib) then "tree-path" else "shortcut"]
       else .disagree s!"direct conversion differs from the composition of hand-written edges along {path}"
     | _, _ => .bad "routecmp: unknown colour name"
